@@ -223,6 +223,7 @@ def oracle_dc(vu, case, res=None):
         info["flat_on_axis"] = True   # outside the hypothesis of the theorems (degenerate probe segment)
         return None, None, info
     k = 0
+    vertex_violation = None
     delicate_margin = Fr(1, 10 ** 7) * scale
     for i, x2 in enumerate(absc):
         matched = False
@@ -256,8 +257,13 @@ def oracle_dc(vu, case, res=None):
                         return dict(base, clause="not-on-contour"), \
                             "design condition (%r, %r) is not on the polygon (crossings at %s)" % (float(xe), float(ry), [float(y) for y in sorted(ys)]), info
                 elif at_vertex and (top_inner is None or ry >= top_inner - tol):
-                    # the top crossing is exactly at a vertex and binary64 missed it; everything else is right
+                    # the top crossing is exactly at a vertex of the contour and was missed (the 4x4 solve gave
+                    # t = 1 + eps on one adjacent edge and t = -eps on the other); everything else is right
                     info["vertex_top_missed"] = info.get("vertex_top_missed", 0) + 1
+                    if not delicate and vertex_violation is None:
+                        vertex_violation = (dict(base, clause="top-ordinate", vertex_hit=True),
+                                            "the abscissa %r is exactly the abscissa of a (non-extreme) contour vertex; the design condition has ordinate %r, "
+                                            "the largest crossing ordinate is that vertex's %r (crossings %s)" % (float(xe), float(ry), float(top), [float(y) for y in sorted(ys)]))
                 elif not delicate:
                     cls = "max-ordinate-negative" if ymax < 0 else "other"
                     return dict(base, clause="top-ordinate", input_class=cls), \
@@ -267,6 +273,10 @@ def oracle_dc(vu, case, res=None):
             if top is not None and not delicate:
                 if top_inner is None:
                     info["vertex_top_missed"] = info.get("vertex_top_missed", 0) + 1
+                    if vertex_violation is None:
+                        vertex_violation = (dict(base, clause="omitted", vertex_hit=True),
+                                            "the abscissa %r is exactly the abscissa of a (non-extreme) contour vertex and meets the contour only there "
+                                            "(ordinates %s) but is omitted" % (float(xe), [float(y) for y in sorted(ys)]))
                     continue
                 cls = "max-ordinate-negative" if ymax < 0 else "other"
                 return dict(base, clause="omitted", input_class=cls), \
@@ -301,6 +311,8 @@ def oracle_dc(vu, case, res=None):
         if r3 != res:
             return dict(base, clause="steps-type"), "abscissae given as %s of %s give other numbers than the same abscissae as a list of floats" % (
                 case.get("steps_type", "list"), "ints" if all(isinstance(v, int) for v in st) else "ints and floats"), info
+    if vertex_violation is not None:
+        return vertex_violation[0], vertex_violation[1], info
     return None, None, info
 
 
@@ -775,7 +787,7 @@ def coq_ix(case, res):
 
 # ------------------------------------------------------------------ shrinking / replay
 def _sigkey(sig):
-    return (sig.get("function"), sig.get("clause"), sig.get("input_class"), sig.get("exception"))
+    return (sig.get("function"), sig.get("clause"), sig.get("input_class"), sig.get("exception"), sig.get("vertex_hit"), sig.get("history"))
 
 
 def shrink_dc(vu, case, sig):
